@@ -34,3 +34,44 @@ Theorem c04_linearizable_cursor_any_iterator : forall e, iter_env e -> forall pr
   check_prop 4 e (c_trace (exec e (init progs) sched)) (c_labels (exec e (init progs) sched)) = true.
 Proof. exact iter_C04_any. Qed.
 Print Assumptions c04_linearizable_cursor_any_iterator.
+
+(** ** the sequential corollary: "any single-threaded sequence of operations yields exactly what the wrapped
+    sequential iterator would yield, in the same order"
+
+    only thread [t0] ever runs (any number of its steps; the run may stop inside an operation).
+    [cov_in_order e tr]: the intervals of positions delivered by the return events of [tr], oldest event
+    first ([cov], the deliveries the checkers judge: a chunk delivers all its elements when it is returned,
+    taken by the caller or not).  [adjacent_from 0 l]: the intervals of [l], in the order of the list, are
+    [0, a1), [a1, a2), ...; [positions l]: their positions one by one.  Every source kind; a wrapped
+    iterator fused or not; [skip_to_end] allowed (nothing is delivered after it) *)
+From OCI.proofs Require Import RunC16 Sequential.
+
+Theorem c04_single_thread_is_sequential : forall e, src_env e -> forall progs, wf_progs progs ->
+  forall t0 sched, Forall (fun t => t = t0) sched ->
+  nowrap (c_labels (exec e (init progs) sched)) ->
+  has_panic (c_trace (exec e (init progs) sched)) = false ->
+  adjacent_from 0 (cov_in_order e (c_trace (exec e (init progs) sched))) = true.
+Proof. exact solo_sequential. Qed.
+Print Assumptions c04_single_thread_is_sequential.
+
+(** position by position: the positions handed out are 0, 1, ..., m - 1 in this order *)
+Theorem c04_single_thread_positions_in_order : forall e, src_env e -> forall progs, wf_progs progs ->
+  forall t0 sched, Forall (fun t => t = t0) sched ->
+  nowrap (c_labels (exec e (init progs) sched)) ->
+  has_panic (c_trace (exec e (init progs) sched)) = false ->
+  positions (cov_in_order e (c_trace (exec e (init progs) sched))) =
+  run_vals 0 (N.to_nat (iv_total (cov e (c_trace (exec e (init progs) sched))))).
+Proof. exact solo_sequential_positions. Qed.
+Print Assumptions c04_single_thread_positions_in_order.
+
+(** with the absence of panics read off the programs: no closure is told to panic, a buffered pull has a
+    buffered iterator, no loop and no buffered iterator has chunk size zero, the wrapped iterator does not panic *)
+Theorem c04_single_thread_is_sequential_programs : forall e, src_env e -> e_crash e = None ->
+  forall progs, wf_progs progs -> plain_progs progs -> (forall t, Forall op_nz (progs t)) ->
+  forall t0 k,
+  nowrap (c_labels (exec e (init progs) (repeat t0 k))) ->
+  adjacent_from 0 (cov_in_order e (c_trace (exec e (init progs) (repeat t0 k)))) = true /\
+  positions (cov_in_order e (c_trace (exec e (init progs) (repeat t0 k)))) =
+  run_vals 0 (N.to_nat (iv_total (cov e (c_trace (exec e (init progs) (repeat t0 k)))))).
+Proof. exact solo_sequential_progs. Qed.
+Print Assumptions c04_single_thread_is_sequential_programs.
